@@ -8,9 +8,12 @@ import (
 	"encoding/json"
 	"fmt"
 	"os"
+	"os/exec"
 	"path/filepath"
 	"sort"
 	"strings"
+
+	"golang.org/x/tools/go/ssa"
 )
 
 type boundedFinding struct {
@@ -22,6 +25,8 @@ func runBounded(name, repo, verifDir, prop string, thorough bool, seed int) (map
 	switch name {
 	case "C10U":
 		return boundedC10U(repo, verifDir, thorough)
+	case "C14T":
+		return boundedC14T(repo, verifDir, thorough)
 	}
 	return map[string]interface{}{"name": name, "status": "not implemented"}, nil
 }
@@ -78,4 +83,198 @@ func boundedC10U(repo, verifDir string, thorough bool) (map[string]interface{}, 
 	}
 	return report, fs
 }
+// boundedC14T: work done by css.recursiveCheck (number of activations, counted by a mechanically
+// instrumented copy of css/handlers.go injected with -overlay) on size-parameterised value families,
+// against a quadratic bound
+func boundedC14T(repo, verifDir string, thorough bool) (map[string]interface{}, []boundedFinding) {
+	report := map[string]interface{}{"name": "C14T: activations of css.recursiveCheck per handler call on families k × token + \" x\"", "kind": "bounded (NOT counted as proved)"}
+	src, err := os.ReadFile(filepath.Join(repo, "css", "handlers.go"))
+	if err != nil {
+		report["error"] = err.Error()
+		return report, nil
+	}
+	const hook = "func recursiveCheck(value []string, funcs []func(string) bool) bool {"
+	if strings.Count(string(src), hook) != 1 {
+		report["error"] = "css.recursiveCheck not found with the expected signature"
+		return report, []boundedFinding{{Name: "bounded/C14T/run", Replay: "css.recursiveCheck not found with the expected signature: the instrumentation point is gone"}}
+	}
+	inst := strings.Replace(string(src), hook, hook+"\n\tVerifRecursiveCalls++", 1) + "\n// VerifRecursiveCalls counts activations of recursiveCheck (verification instrumentation, overlay only)\nvar VerifRecursiveCalls int\n"
+	specDir := envOr("VERIF_SPECS", "/verif/specs")
+	w, err := LoadWorld(repo, []string{specDir})
+	if err != nil {
+		report["error"] = err.Error()
+		return report, nil
+	}
+	vocab := map[string][]string{}
+	var reg strings.Builder
+	var names []string
+	for _, fn := range w.funcs {
+		if fn.Pkg != nil && fn.Pkg.Pkg.Name() == "css" && isHandlerSig(fn) && strings.HasSuffix(fn.Name(), "Handler") {
+			names = append(names, fn.Name())
+		}
+	}
+	sort.Strings(names)
+	for _, n := range names {
+		fn := w.funcs["css."+n]
+		c := stringConsts(fn)
+		for _, callee := range calleesOf(fn) {
+			c = append(c, stringConsts(callee)...)
+		}
+		if len(c) > 10 {
+			c = c[:10]
+		}
+		vocab[n] = append(c, "1px", "red", "auto")
+		fmt.Fprintf(&reg, "\t%q: %s,\n", n, n)
+	}
+	k := 14
+	if thorough {
+		k = 18
+	}
+	work := filepath.Join(verifDir, "work", "bounded")
+	os.MkdirAll(work, 0o755)
+	instFile := filepath.Join(work, "handlers_instrumented.go")
+	os.WriteFile(instFile, []byte(inst), 0o644)
+	cfg := map[string]interface{}{"k": k, "vocab": vocab}
+	cb, _ := json.Marshal(cfg)
+	cfgFile := filepath.Join(work, "c14t.json")
+	os.WriteFile(cfgFile, cb, 0o644)
+	testSrc := fmt.Sprintf(c14tTest, reg.String())
+	testFile := filepath.Join(work, "zz_verif_c14t_test.go")
+	os.WriteFile(testFile, []byte(testSrc), 0o644)
+	ov := map[string]map[string]string{"Replace": {filepath.Join(repo, "css", "handlers.go"): instFile, filepath.Join(repo, "css", "zz_verif_c14t_test.go"): testFile}}
+	ob, _ := json.Marshal(ov)
+	ovFile := filepath.Join(work, "overlay-c14t.json")
+	os.WriteFile(ovFile, ob, 0o644)
+	cmd := exec.Command("go", "test", "-overlay", ovFile, "-vet=off", "-count=1", "-timeout", "600s", "-v", "-run", "^TestVerifC14T$", ".")
+	cmd.Dir = filepath.Join(repo, "css")
+	cmd.Env = append(os.Environ(), "GOFLAGS=-mod=mod", "GOPROXY=off", "GOSUMDB=off", "GOTOOLCHAIN=local", "VERIF_C14T="+cfgFile)
+	outB, _ := cmd.CombinedOutput()
+	out := string(outB)
+	var res map[string]struct {
+		Worst string `json:"worst"`
+		Calls []int  `json:"calls"`
+		Ks    []int  `json:"ks"`
+	}
+	found := false
+	for _, l := range strings.Split(out, "\n") {
+		if strings.HasPrefix(l, "VERIF-C14T ") {
+			found = json.Unmarshal([]byte(strings.TrimPrefix(l, "VERIF-C14T ")), &res) == nil
+		}
+	}
+	if !found {
+		report["error"] = "bounded run produced no result:\n" + out
+		return report, []boundedFinding{{Name: "bounded/C14T/run", Replay: "the bounded stand-in could not be run:\n" + out}}
+	}
+	report["bound"] = fmt.Sprintf("for every css handler and every token t of its vocabulary (string constants of the handler and its callees, 1px, red, auto): values k × t + \" x\" for k = 2, 4, ..., %d; activations of recursiveCheck must stay below 16·k² + 64", k)
+	report["handlers"] = len(res)
+	worst := map[string]interface{}{}
+	var fs []boundedFinding
+	var hs []string
+	for h := range res {
+		hs = append(hs, h)
+	}
+	sort.Strings(hs)
+	evals := 0
+	for _, h := range hs {
+		r := res[h]
+		evals += len(r.Calls)
+		bad := false
+		for i, c := range r.Calls {
+			if c > 16*r.Ks[i]*r.Ks[i]+64 {
+				bad = true
+			}
+		}
+		if bad {
+			worst[h] = map[string]interface{}{"value_family": r.Worst, "k": r.Ks, "activations": r.Calls}
+			fs = append(fs, boundedFinding{Name: "bounded/C14T/" + h, Replay: fmt.Sprintf("bounded stand-in C14T: css.%s on %s: activations of recursiveCheck for k = %v: %v (bound 16·k² + 64)\n", h, r.Worst, r.Ks, r.Calls)})
+		}
+	}
+	report["evaluations"] = evals
+	report["superpolynomial"] = worst
+	return report, fs
+}
+
+// calleesOf: repo functions called directly by fn
+func calleesOf(fn *ssa.Function) []*ssa.Function {
+	var cs []*ssa.Function
+	seen := map[*ssa.Function]bool{}
+	for _, b := range fn.Blocks {
+		for _, in := range b.Instrs {
+			if c, ok := in.(ssa.CallInstruction); ok {
+				if callee := c.Common().StaticCallee(); callee != nil && callee.Blocks != nil && !seen[callee] {
+					seen[callee] = true
+					cs = append(cs, callee)
+				}
+			}
+			// function values stored in slices (usedFunctions)
+			if st, ok := in.(*ssa.Store); ok {
+				if f, ok := st.Val.(*ssa.Function); ok && f.Blocks != nil && !seen[f] {
+					seen[f] = true
+					cs = append(cs, f)
+				}
+			}
+		}
+	}
+	return cs
+}
+
+const c14tTest = `package css
+
+import (
+	"encoding/json"
+	"fmt"
+	"os"
+	"strings"
+	"testing"
+)
+
+var verifC14Handlers = map[string]func(string) bool{
+%s}
+
+func TestVerifC14T(t *testing.T) {
+	b, err := os.ReadFile(os.Getenv("VERIF_C14T"))
+	if err != nil {
+		t.Fatal(err)
+	}
+	var cfg struct {
+		K     int                 ` + "`json:\"k\"`" + `
+		Vocab map[string][]string ` + "`json:\"vocab\"`" + `
+	}
+	if err := json.Unmarshal(b, &cfg); err != nil {
+		t.Fatal(err)
+	}
+	type res struct {
+		Worst string ` + "`json:\"worst\"`" + `
+		Calls []int  ` + "`json:\"calls\"`" + `
+		Ks    []int  ` + "`json:\"ks\"`" + `
+	}
+	out := map[string]*res{}
+	for name, h := range verifC14Handlers {
+		best := &res{}
+		for _, tok := range cfg.Vocab[name] {
+			if strings.ContainsAny(tok, " ") || tok == "" {
+				continue
+			}
+			r := &res{Worst: fmt.Sprintf("k × %%q + \" x\"", tok)}
+			for k := 2; k <= cfg.K; k += 2 {
+				v := strings.Repeat(tok+" ", k) + "x"
+				VerifRecursiveCalls = 0
+				h(v)
+				r.Calls = append(r.Calls, VerifRecursiveCalls)
+				r.Ks = append(r.Ks, k)
+				if VerifRecursiveCalls > 16*k*k+64 {
+					break // the bound is already exceeded: larger k would only take longer
+				}
+			}
+			if len(best.Calls) == 0 || r.Calls[len(r.Calls)-1] > best.Calls[len(best.Calls)-1] {
+				best = r
+			}
+		}
+		out[name] = best
+	}
+	ob, _ := json.Marshal(out)
+	fmt.Println("VERIF-C14T " + string(ob))
+}
+`
+
 func runOracle(name, repo, verifDir, prop string) (string, bool) { return "no oracle", false }
